@@ -80,7 +80,15 @@ def run_case(case, ctx):
     fresh = Harness(prog, "fresh")
     a = Harness(_history_program(prog, hist), "reused")
     try:
-        if fresh.cmd("initialize") != "ok" or fresh.cmd("start") != "ok" or not fresh.wait_quiescent(20):
+        # the replication under test (and the reference) is driven by start(), or - k = 2 - by one step() first
+        def drive(hh):
+            if case["k"] == 2:
+                if hh.cmd("step") != "ok" or not hh.wait_quiescent(20):
+                    return False
+                if hh.sim.run_state.name == "ENDED":
+                    return True
+            return hh.cmd("start") == "ok" and hh.wait_quiescent(20)
+        if fresh.cmd("initialize") != "ok" or not drive(fresh):
             ctx.viol("reference-replication-failed", where)
             return
         want = _observe_replication(fresh, 0, 0)
@@ -173,7 +181,7 @@ def run_case(case, ctx):
                 first = _observe_replication(a, 0, 0)
                 # (driven by step + start the START listeners of the model draw once more than in the reference run: only the
                 # refusal itself is judged there)
-                if case["k"] != 4 and (first["trace"] != want["trace"] or first["stats"] != want["stats"]):
+                if case["k"] not in (2, 4) and (first["trace"] != want["trace"] or first["stats"] != want["stats"]):
                     ctx.viol("refused-initialize-disturbed-the-run", {**where, "got": str(first["trace"])[:400], "fresh": str(want["trace"])[:400]})
                     return
         elif hist == "other_model":
@@ -278,7 +286,7 @@ def run_case(case, ctx):
         if snap != fsnap:
             ctx.viol("state-right-after-re-initialize", {**where, "got": snap, "fresh": fsnap})
             return
-        if a.cmd("start") != "ok" or not a.wait_quiescent(20):
+        if not drive(a):
             ctx.viol("second-replication-did-not-run", {**where, "snapshot": a.snapshot()})
             return
         got = _observe_replication(a, first_h, first_n)
